@@ -158,6 +158,8 @@ func runC14MarshalAppend(c *Ctx) {
 func runC14(c *Ctx) {
 	p := c.P
 	defer c.ImportRules("C11", "C11.13")
+	// clause shared with C15: a pooled (de)compressor is handed back exactly once
+	defer c.ImportRules("C15", "C15.2")
 	defer runC14MarshalAppend(c)
 	// clause shared with C03 (see DESIGN.md section 6a)
 	defer c.ImportRules("C03", "C03.13")
@@ -279,6 +281,46 @@ func runC14(c *Ctx) {
 			b := bufs[i]
 			c.CountSite()
 			_, isDefer := put.(*ssa.Defer)
+			// (b') (seed C14k) the buffer's bytes must not outlive the release: a slice obtained from
+			// buf.Bytes() that is stored into a field (directly, or wrapped in a reader made from it)
+			// still points into the array that the next RPC taking this buffer overwrites
+			{
+				escaped := token.NoPos
+				ForEachInstr(fn, func(in ssa.Instruction) {
+					bc, ok := in.(*ssa.Call)
+					if !ok || !IsCallTo(bc, "(*bytes.Buffer).Bytes") || !(strip(bc.Call.Args[0]) == strip(b) || sameBuffer(bc.Call.Args[0], b)) {
+						return
+					}
+					seenV := map[ssa.Value]bool{}
+					var follow func(v ssa.Value, depth int)
+					follow = func(v ssa.Value, depth int) {
+						if depth > 5 || seenV[v] || v.Referrers() == nil {
+							return
+						}
+						seenV[v] = true
+						for _, ref := range *v.Referrers() {
+							switch r := ref.(type) {
+							case *ssa.Store:
+								if _, isFA := r.Addr.(*ssa.FieldAddr); isFA && r.Val == v {
+									escaped = r.Pos()
+								}
+							case *ssa.MakeInterface, *ssa.Slice, *ssa.ChangeType, *ssa.ChangeInterface, *ssa.Phi:
+								follow(r.(ssa.Value), depth+1)
+							case *ssa.Call:
+								// constructors of readers over the slice
+								if IsCallTo(r, "bytes.NewReader", "bytes.NewBuffer") {
+									follow(r, depth+1)
+								}
+							}
+						}
+					}
+					follow(bc, 0)
+				})
+				if escaped != token.NoPos {
+					c.Bad("C14.1", FuncName(fn), "bytes-outlive-put", put.Pos(),
+						"a slice of this buffer's bytes is stored into a field ("+p.Pos(escaped)+") and the buffer is returned to the pool here: the stored slice still points into the array that the next RPC taking the buffer overwrites, so one RPC's backend can read another RPC's request")
+				}
+			}
 			// (b) use after put / double put
 			if !isDefer {
 				use := func(in ssa.Instruction) bool {
@@ -332,6 +374,26 @@ func runC14(c *Ctx) {
 			if cellFld == nil {
 				if _, isParam := strip(b).(*ssa.Parameter); isParam {
 					continue // ownership passed in by the caller (bufferPool wrappers)
+				}
+				// a closure (typically deferred) that releases a variable of the enclosing function:
+				// the buffer is whatever was assigned to that variable there
+				if vals, parent, ok := capturedValues(fn, strip(b)); ok {
+					double := token.NoPos
+					for _, v := range vals {
+						ForEachInstr(parent, func(pin ssa.Instruction) {
+							pc, arg, isP := isPut(pin)
+							if !isP {
+								return
+							}
+							if sameBuffer(arg, v) || strip(arg) == strip(v) {
+								double = pc.Pos()
+							}
+						})
+					}
+					c.Check(double == token.NoPos, "C14.1", FuncName(fn), "double-put", put.Pos(),
+						"the closure releases a variable of the enclosing function; none of the buffers assigned to it is released a second time there",
+						"this closure releases whatever the enclosing function's variable holds when it runs, and one of the buffers assigned to that variable is also released by the enclosing function itself ("+p.Pos(double)+"): the same buffer enters the pool twice and is handed to two RPCs")
+					continue
 				}
 				c.Unknown("C14.1", FuncName(fn), "released-buffer-origin", put.Pos(), "cannot determine where the released buffer comes from")
 				continue
@@ -712,4 +774,46 @@ func runC14(c *Ctx) {
 	if nCand == 0 {
 		c.OK("C14.3", "reader adapters", "no-cross-side-writes", token.NoPos, "no response-writer field is stored from the reader side")
 	}
+}
+
+// capturedValues: v is a load of a free variable of the closure fn; returns the values the
+// enclosing function stores into the captured variable.
+func capturedValues(fn *ssa.Function, v ssa.Value) ([]ssa.Value, *ssa.Function, bool) {
+	ld, ok := v.(*ssa.UnOp)
+	if !ok || ld.Op != token.MUL {
+		return nil, nil, false
+	}
+	fv, ok := ld.X.(*ssa.FreeVar)
+	if !ok || fn.Parent() == nil {
+		return nil, nil, false
+	}
+	idx := -1
+	for i, f := range fn.FreeVars {
+		if f == fv {
+			idx = i
+		}
+	}
+	if idx < 0 {
+		return nil, nil, false
+	}
+	parent := fn.Parent()
+	var out []ssa.Value
+	found := false
+	ForEachInstr(parent, func(in ssa.Instruction) {
+		mc, ok := in.(*ssa.MakeClosure)
+		if !ok || mc.Fn != ssa.Value(fn) || idx >= len(mc.Bindings) {
+			return
+		}
+		al, ok := mc.Bindings[idx].(*ssa.Alloc)
+		if !ok {
+			return
+		}
+		found = true
+		for _, ref := range *al.Referrers() {
+			if st, ok := ref.(*ssa.Store); ok && st.Addr == ssa.Value(al) && !IsNilConst(st.Val) {
+				out = append(out, st.Val)
+			}
+		}
+	})
+	return out, parent, found
 }
